@@ -1,8 +1,6 @@
 """Properties not claimed (yet), each with the reason that goes into MANIFEST.not_applicable."""
 NA = {
     'C03': 'not applicable: the oracle is the YAML 1.2 grammar applied to characters; no function-level contract expresses it (needs a formalised grammar and a whole-pipeline refinement proof); its mechanisms are covered for safety and well-nestedness under C01/C02',
-    'C07': 'check under construction in this session',
-    'C09': 'check under construction in this session',
     'C13': 'not applicable: whole-pipeline functional statement whose oracle is a JSON parser; the pieces that have contracts are decided under C04 (escapes), C08 (numbers/literals) and C02 (nesting)',
     'C20': 'not applicable: rests on derived Hash/Eq and on hashlink::LinkedHashMap (not code of this repository that a contract can be attached to); Kani on the real types did not finish one insert + two lookups in 10 minutes',
 }
